@@ -41,7 +41,7 @@ TECHNIQUE = "rule-based state machine (model-based testing) + exhaustive explora
 USERS = ["alice", "bøb", "da ve", "u" * 40, "#carol", " lead"]
 REALMS = ["r1", "réalm two"]
 PASSWORDS = ["pw1", "pässword2", "x y z"]
-BAD_NAMES = ["a:b", "a\nb", "a\rb", "a\tb", "a\x00b", "n" * 256, "é" * 256, ":"]
+BAD_NAMES = ["a:b", "a\nb", "a\rb", "a\tb", "a\x00b", "n" * 256, "é" * 256, ":", "é" * 128, "€" * 86, "é" * 127 + "x", "n" * 255]
 
 
 # ---- independent reader ------------------------------------------------------------------------------
@@ -249,10 +249,13 @@ def apply_ops(rec, hist, soft=False):
                 kind = "lost-user" if missing else ("resurrected-user" if extra else "wrong-hash")
                 fail(f"{where}-{kind}", f"{where} output does not parse back to the current users/hashes", i, {"missing": missing, "extra": extra}, None)
                 return False
+            # text lines are compared up to their line terminator (a final comment without newline gets one when records follow)
+            norm = lambda seq: [(k, v.rstrip(b"\r\n")) if k == "text" else (k, v) for k, v in seq]  # noqa: E731
             got = [t for t in tokens if t[0] == "text" or (t[1] in model.recs and t[1] not in model.moved)]
             while got and got[-1][0] == "text" and not got[-1][1].strip():
                 got.pop()
-            exp = model.order()
+            got = norm(got)
+            exp = norm(model.order())
             if got != exp:
                 fail(f"{where}-order", f"{where} output does not keep comments, blank lines and untouched records in their original order", i, [repr(x) for x in got][:8], [repr(x) for x in exp][:8])
                 return False
@@ -453,7 +456,23 @@ def apply_ops(rec, hist, soft=False):
                 m, extra = meths[op[2] % len(meths)]
                 a = (bad,) if cls == "htpasswd" else ((bad, REALMS[0]) if op[3] % 2 == 0 else (USERS[0], bad))
                 st, res = call(getattr(db, m), *a, *extra)
-                if not (st == "err" and isinstance(res, ValueError)):
+                try:
+                    eb = bad.encode(encoding)
+                    must_refuse = len(eb) > 255 or any(c in eb for c in b":\n\r\t\x00")
+                except UnicodeEncodeError:
+                    must_refuse = True
+                if not must_refuse:
+                    # a representable name of at most 255 BYTES: must be handled like any unknown user
+                    if st == "err":
+                        fail("good-name-refused", f"{m}() refuses a name of {len(eb)} bytes without forbidden characters", i, repr(res), "accepted")
+                        return nontrivial
+                    gkey = eb if cls == "htpasswd" else ((eb, enc(REALMS[0], encoding)) if op[3] % 2 == 0 else (enc(USERS[0], encoding), eb))
+                    if m == "set_password":
+                        model.set(gkey, enc(db.get_hash(*a), encoding), "pw")
+                        mutations += 1
+                    elif m == "delete":
+                        mutations += bool(model.delete(gkey))
+                elif not (st == "err" and isinstance(res, ValueError)):
                     fail("bad-name-accepted", f"{m}() accepts a user/realm name containing a separator, control character or more than 255 bytes", i, repr(res), "ValueError")
                     return nontrivial
             # autosave: the bound file must already reflect the model after every mutating step
@@ -491,6 +510,7 @@ def initial_files():
         (hp(a, "pw1") + b"#x\n" + hp(a, "pw2") + hp(b, "pw1"), hd(a, r1, "pw1") + b"#x\n" + hd(a, r1, "pw2") + hd(b, r1, "pw1"), "duplicates"),
         (hp(a, "pw1").replace(b"\n", b"\r\n") + hp(b, "pw1").rstrip(b"\n"), hd(a, r1, "pw1").replace(b"\n", b"\r\n") + hd(b, r1, "pw1").rstrip(b"\n"), "crlf-nofinalnewline"),
         (b"  \n\n" + hp(d, "pw1") + b"\t# indented comment\n\n\n", b"  \n\n" + hd(d, r2, "pw1") + b"\t# indented comment\n\n\n", "blank-heavy"),
+        (hp(a, "pw1") + b"# final comment without newline", hd(a, r1, "pw1") + b"# final comment without newline", "comment-nofinalnewline"),
         (hp(a, "pw1") + b"malformed line without colon\n", hd(a, r1, "pw1") + b"only:two\n", "malformed"),
         (hp(a, "pw1") + b"x:y:z\n", hd(a, r1, "pw1") + b"a:b:c:d\n", "malformed-extra-field"),
     ]
@@ -601,7 +621,7 @@ def make_machine(rec, cls):
         def load_string(self, k):
             self._step(["load_string", k])
 
-        @rule(k=st.integers(0, 7), m=st.integers(0, 3), w=st.integers(0, 1))
+        @rule(k=st.integers(0, 11), m=st.integers(0, 3), w=st.integers(0, 1))
         def badname(self, k, m, w):
             self._step(["badname", k, m, w])
 
@@ -617,17 +637,19 @@ def t_machine(rec, seed, tier, cls, shard):
     hyp_machine(rec, make_machine(rec, cls), n, steps, seed + shard, shrink_budget=20)
 
 
-def t_explore(rec, seed, tier, cls, file_index, first):
+def t_explore(rec, seed, tier, cls, file_index, first, encoding="utf-8"):
     """all operation sequences up to length 4/5 over 7 operations, starting with operation `first`"""
     _init_external()
     files = initial_files()
-    ops = [["set_password", 0, 0, 0, False], ["set_hash", 1, 0, 1, False], ["delete", 0, 0, False], ["delete", 1, 0, False], ["check", 0, 0, 0, False], ["export", "reparse"], ["reload"]]
+    ops = [["set_password", 0, 0, 1, False], ["set_hash", 1, 0, 1, False], ["delete", 0, 0, False], ["delete", 1, 0, False], ["check", 0, 0, 1, False], ["export", "reparse"], ["reload"]]
     depth = 4 if tier == "quick" else 5
     initial = files[file_index][0 if cls == "htpasswd" else 1]
+    if encoding != "utf-8":
+        initial = initial.decode("utf-8").encode(encoding)
     n = nt = 0
     for ln in range(1, depth + 1):
         for seq in itertools.product(range(7), repeat=ln - 1):
-            hist = {"cls": cls, "initial": initial, "initial_label": files[file_index][2], "autosave": False, "bound": False, "encoding": "utf-8",
+            hist = {"cls": cls, "initial": initial, "initial_label": files[file_index][2], "autosave": False, "bound": False, "encoding": encoding,
                     "return_unicode": True, "ctx": "custom", "default_realm": False, "ops": [ops[first]] + [ops[k] for k in seq]}
             if apply_ops(rec, hist, soft=True):
                 nt += 1
@@ -644,7 +666,9 @@ def tasks(tier):
     for cls in ("htpasswd", "htdigest"):
         for sh in range(3 if tier == "quick" else 6):
             ts.append({"name": f"machine-{cls}-{sh}", "fn": "t_machine", "kw": {"cls": cls, "shard": sh}})
-        for fi in (1, 2, 3):
+        for fi in (1, 2, 3, 6):
             for first in range(7):
                 ts.append({"name": f"explore-{cls}-{fi}-{first}", "fn": "t_explore", "kw": {"cls": cls, "file_index": fi, "first": first}})
+        for first in (0, 4):
+            ts.append({"name": f"explore-{cls}-latin1-{first}", "fn": "t_explore", "kw": {"cls": cls, "file_index": 1, "first": first, "encoding": "latin-1"}})
     return ts
